@@ -387,18 +387,34 @@ func ledgerTables(c *Ctx, name string, r Registration) (map[string]roleTable, []
 			// attached call executed locally: function name string(Arguments[F]), arguments Arguments[F+1:]
 			if cv, ok := call.Call.Args[1].(*ssa.Convert); ok {
 				addIdx("callFunction", cv.X)
-				if sl, ok := call.Call.Args[2].(*ssa.Phi); ok {
-					for _, ed := range sl.Edges {
-						if s2, ok := ed.(*ssa.Slice); ok && s2.Low != nil {
-							low := s.Env.LE(s2.Low)
-							if _, _, off, ok := s.Env.sliceBase(s2.X, 0); ok {
-								low = off.plus(low) // a re-slice of a sub-slice of the arguments: absolute position
-							}
-							if f, _, ok := classifyIndex(low, 0); ok {
-								tabs[side].add("callArgsFrom", f)
-								if name == "ESDTTransfer" {
-									tabs["destination"].add("callArgsFrom", f)
-								}
+				// the call arguments: `nil` or Arguments[F+1:], merged by a φ or produced by a small helper
+				type cand struct {
+					v ssa.Value
+					e *Env
+				}
+				var cands []cand
+				switch av := call.Call.Args[2].(type) {
+				case *ssa.Phi:
+					for _, ed := range av.Edges {
+						cands = append(cands, cand{ed, s.Env})
+					}
+				case *ssa.Call:
+					if rv, sub := s.Env.inlineResult(av, 0); rv != nil {
+						cands = append(cands, cand{rv, sub})
+					}
+				case *ssa.Slice:
+					cands = append(cands, cand{av, s.Env})
+				}
+				for _, cd := range cands {
+					if s2, ok := cd.v.(*ssa.Slice); ok && s2.Low != nil {
+						low := cd.e.LE(s2.Low)
+						if _, _, off, ok := cd.e.sliceBase(s2.X, 0); ok {
+							low = off.plus(low) // a re-slice of a sub-slice of the arguments: absolute position
+						}
+						if f, _, ok := classifyIndex(low, 0); ok {
+							tabs[side].add("callArgsFrom", f)
+							if name == "ESDTTransfer" {
+								tabs["destination"].add("callArgsFrom", f)
 							}
 						}
 					}
